@@ -56,6 +56,11 @@ func (r *Runner) lateReplay() {
 	}
 	inLateReplay = true
 	defer func() { inLateReplay = false }()
+	// A caller owns what a call returned to it: it may wipe a key after use, append to a slice it was given,
+	// go on computing with an integer. Before the early requests are asked again, every result still remembered
+	// by the retained-results check is overwritten in place, appended to within its capacity, or (integers) set
+	// to another value; the answers must not change.
+	scribbleRetained()
 	// twice: the second pass meets whatever the first pass (itself a stream of distinct inputs) displaced
 	for pass := 0; pass < 2; pass++ {
 		for _, c := range earlyCases {
@@ -68,5 +73,37 @@ func (r *Runner) lateReplay() {
 						c.seq, earlySeq-c.seq, firstDiff(ans, c.ans))}, false)
 			}
 		}
+	}
+}
+
+func scribbleRetained() {
+	for i := range retainRing {
+		e := &retainRing[i]
+		if e.b == nil {
+			continue
+		}
+		b := e.b
+		e.b = nil // no longer compared: it is the caller (this harness) that changes it now
+		for j := range b {
+			b[j] = 0xEE
+		}
+		if extra := cap(b) - len(b); extra > 0 {
+			if extra > 64 {
+				extra = 64
+			}
+			b = b[:len(b)+extra]
+			for j := len(b) - extra; j < len(b); j++ {
+				b[j] = 0xEE
+			}
+		}
+	}
+	for i := range retainBigRing {
+		e := &retainBigRing[i]
+		if e.v == nil {
+			continue
+		}
+		v := e.v
+		e.v = nil
+		v.SetInt64(0x5EED)
 	}
 }
